@@ -1575,8 +1575,7 @@ class C06(Property):
         bad = legal_text(full, RAW_LEGAL[c])
         if bad:
             return Failure('quote_legal', 'quote_%s_part(%r, full_quote=True) = %r: %s' % (c, t, full, bad))
-        if obs['default'] != full:
-            return Failure('quote_default', 'quote_%s_part(%r) default mode differs from full_quote=True' % (c, t))
+        # (which mode is the DEFAULT of the full_quote parameter is not something the statement fixes: not judged)
         if obs['unq'] != nfc(t):
             return Failure('unquote_quote', 'unquote(quote_%s_part(%r)) = %r, expected %r' % (c, t, obs['unq'], nfc(t)))
         if ref_unquote(full) != nfc(t):
